@@ -7,7 +7,8 @@ import tprog, gen_dag, gen_ops
 PROP = 'C14'
 LEAN_TARGETS = ['Props.C14']
 REQUIRED_THEOREMS = ['Props.C14.linear_is_addmm', 'Props.C14.cross_entropy_is_nll_log_softmax', 'Props.C14.mean_is_sum_div_count',
-                     'Props.C14.flatten_is_reshape', 'Props.C14.sub_is_add_neg', 'Props.C14.div_is_mul_pow']
+                     'Props.C14.flatten_is_reshape', 'Props.C14.sub_is_add_neg', 'Props.C14.div_is_mul_pow', 'Props.C14.stack_is_concat_unsqueeze',
+                     'Props.C14.unbind_inverts_stack', 'Props.C14.movedim_adjacent_is_transpose']
 RULE = ('one program per identity and operand set, both sides built over the same leaves: cross-entropy | NLL of log_softmax; '
         'BCE-with-logits | BCE of sigmoid (moderate logits); log_softmax | log of softmax; linear | x @ W.T + b; addmm | a + b @ c; '
         'conv2d | unfold, matmul, reshape; max/avg pool | unfold, max/mean; a - b | a + (-b); a / b | a * b**-1; mean | sum / count; '
